@@ -101,12 +101,18 @@ Fixpoint mismatches_c12 (_ : nat) (cs : list (nat * c12_case)) : list (nat * lis
   end.
 
 (** ** C10 *)
+
+(** One caller of a C10 case: Query / FullScanQuery ([cl_row] = false) or QueryRow, with its SelectOptions.
+    Only a call without options goes through the batch function (BaseQuery: [query.Options == nil]). *)
+Record c10_caller : Type := mk_caller { cl_row : bool; cl_opts : option select_opts }.
+
 Record c10_case : Type := mk_c10 {
-  q_table : table; q_filters : list filter; q_arrival : list (list nat); q_contents : list drow;
-  q_batched_stmts : list obs_event;     (* statements of the batched run, one per invocation *)
-  q_batched_rows : list (list nat);     (* per caller: positions (in q_contents) of the rows it received *)
-  q_single_stmts : list obs_event;      (* statements of the same queries without batching, per caller *)
-  q_single_rows : list (list nat)
+  q_table : table; q_filters : list filter; q_callers : list c10_caller;
+  q_arrival : list (list nat); q_contents : list drow;
+  q_batched_stmts : list obs_event;     (* statements of the run on a batching context (any order) *)
+  q_batched_rows : list (nat * list nat); (* per caller: result code, positions (in q_contents) of its rows *)
+  q_single_stmts : list obs_event;      (* statements of the same calls without batching, per caller *)
+  q_single_rows : list (nat * list nat)
 }.
 
 Fixpoint filter_idx {A : Type} (p : A -> bool) (l : list A) (i : nat) : list nat :=
@@ -118,38 +124,127 @@ Fixpoint filter_idx {A : Type} (p : A -> bool) (l : list A) (i : nat) : list nat
 Definition batch_of (arrival : list (list nat)) (i : nat) : option (list nat) :=
   find (fun b => existsb (Nat.eqb i) b) arrival.
 
-Definition model_batched_rows (t : table) (fs : list filter) (arrival : list (list nat)) (contents : list drow) (i : nat)
-  : list nat :=
-  match batch_of arrival i with
-  | None => []
-  | Some b =>
-      let w := batch_wclause t (map (nth_filter fs) b) in
-      filter_idx (fun r => is_tt (eval_wclause w r) && matcher_matches t (nth_filter fs i) r) contents 0
+Definition nth_caller_opts (cs : list c10_caller) (i : nat) : option select_opts :=
+  cl_opts (nth i cs (mk_caller false None)).
+Definition nth_caller_row (cs : list c10_caller) (i : nat) : bool :=
+  cl_row (nth i cs (mk_caller false None)).
+
+(** ORDER BY id [DESC] and LIMIT as the fake server (and MySQL on a unique key) evaluate them; without
+    ORDER BY the rows come in table order.  None = options whose effect on the rows is not modelled (free
+    text, other orderings): only their statement is compared. *)
+Definition dval_leb (a b : dval) : bool :=
+  match a, b with
+  | DNull, _ => true
+  | _, DNull => false
+  | DInt x, DInt y => Z.leb x y
+  | DStr x, DStr y | DBytes x, DBytes y | DStr x, DBytes y | DBytes x, DStr y => String.leb x y
+  | _, _ => true
   end.
 
-Fixpoint nat_lists_eqb (a b : list (list nat)) : bool :=
-  match a, b with
+Fixpoint insert_by_id (contents : list drow) (i : nat) (l : list nat) : list nat :=
+  match l with
+  | [] => [i]
+  | j :: t => if dval_leb (cell (nth i contents []) "id") (cell (nth j contents []) "id")
+              then i :: l else j :: insert_by_id contents i t
+  end.
+Definition sort_by_id (contents : list drow) (l : list nat) : list nat :=
+  fold_right (insert_by_id contents) [] l.
+
+Definition apply_opts (contents : list drow) (o : option select_opts) (rows : list nat) : option (list nat) :=
+  match o with
+  | None => Some rows
+  | Some o =>
+      if negb (String.eqb (o_where o) "") then None
+      else
+        let ordered :=
+          if String.eqb (o_order o) "" then Some rows
+          else if String.eqb (o_order o) "id" then Some (sort_by_id contents rows)
+          else if String.eqb (o_order o) "id DESC" then Some (rev (sort_by_id contents rows))
+          else None in
+        match ordered with
+        | None => None
+        | Some l => Some (match o_limit o with O => l | n => firstn n l end)
+        end
+  end.
+
+(** Query hands the rows over; QueryRow: 0 = the row, 1 = sql.ErrNoRows, 2 = "expected no more than 1 result". *)
+Definition call_result (is_row : bool) (rows : list nat) : nat * list nat :=
+  if is_row then match rows with [] => (1, []) | [r] => (0, [r]) | _ => (2, []) end
+  else (0, rows).
+
+Definition model_single_rows (t : table) (fs : list filter) (cs : list c10_caller) (contents : list drow) (i : nat)
+  : option (nat * list nat) :=
+  let f := nth_filter fs i in
+  option_map (call_result (nth_caller_row cs i))
+    (apply_opts contents (nth_caller_opts cs i)
+       (filter_idx (fun r => is_tt (eval_simple (dfilter_of t f) r)) contents 0)).
+
+Definition model_batched_rows (t : table) (fs : list filter) (cs : list c10_caller) (arrival : list (list nat))
+           (contents : list drow) (i : nat) : option (nat * list nat) :=
+  match nth_caller_opts cs i with
+  | Some _ => model_single_rows t fs cs contents i          (* a statement of its own *)
+  | None =>
+      match batch_of arrival i with
+      | None => Some (0, [])
+      | Some b =>
+          let w := batch_wclause t (map (nth_filter fs) b) in
+          Some (call_result (nth_caller_row cs i)
+                  (filter_idx (fun r => is_tt (eval_wclause w r) && matcher_matches t (nth_filter fs i) r) contents 0))
+      end
+  end.
+
+Definition result_eqb (a b : nat * list nat) : bool := Nat.eqb (fst a) (fst b) && nat_list_eqb (snd a) (snd b).
+
+Fixpoint results_agree (model : list (option (nat * list nat))) (obs : list (nat * list nat)) : bool :=
+  match model, obs with
   | [], [] => true
-  | x :: a', y :: b' => nat_list_eqb x y && nat_lists_eqb a' b'
+  | None :: m, _ :: o => results_agree m o
+  | Some x :: m, y :: o => result_eqb x y && results_agree m o
   | _, _ => false
   end.
 
-(** Components: 1 = text / arguments of the combined statements, 2 = rows handed to each batched caller,
-    3 = text / arguments of the stand-alone statements, 4 = rows of the stand-alone queries (the fake
-    server's WHERE evaluation against the model's), 5 = the generated case is outside the theorems' domain
-    (column descriptors or table contents not representable: a harness defect). *)
+(** Equality of two statement lists up to order (concurrent callers reach the server in any order). *)
+Fixpoint remove_obs (x : obs_event) (l : list obs_event) : option (list obs_event) :=
+  match l with
+  | [] => None
+  | y :: t => if obs_eqb x y then Some t
+              else match remove_obs x t with Some t' => Some (y :: t') | None => None end
+  end.
+Fixpoint obs_perm_eqb (a b : list obs_event) : bool :=
+  match a with
+  | [] => match b with [] => true | _ => false end
+  | x :: a' => match remove_obs x b with Some b' => obs_perm_eqb a' b' | None => false end
+  end.
+
+Definition own_stmt (t : table) (fs : list filter) (cs : list c10_caller) (i : nat) : obs_event :=
+  obs_of_event (EStmt (SSelect (t_name t) (col_names t) (WSimple (dfilter_of t (nth_filter fs i))) (nth_caller_opts cs i))).
+
+Definition has_opts (cs : list c10_caller) (i : nat) : bool :=
+  match nth_caller_opts cs i with Some _ => true | None => false end.
+
+(** Components: 1 = text / arguments of the statements of the batched run (combined statements and the
+    own statements of callers with options), 2 = result of each caller on the batching context,
+    3 = text / arguments of the stand-alone statements, 4 = results of the stand-alone calls (the fake
+    server's WHERE / ORDER BY / LIMIT evaluation against the model's), 5 = the generated case is outside the
+    theorems' domain (a harness defect), 6 = the callers that went through the batch function are not
+    exactly the callers without options. *)
 Definition c10_check (c : c10_case) : list nat :=
   let t := q_table c in
   let fs := q_filters c in
-  (if obs_list_eqb (map (fun b => obs_of_event (EStmt (batch_stmt t (map (nth_filter fs) b)))) (q_arrival c))
-                   (q_batched_stmts c) then [] else [1])
-  ++ (if nat_lists_eqb (map (model_batched_rows t fs (q_arrival c) (q_contents c)) (seq 0 (List.length fs)))
-                       (q_batched_rows c) then [] else [2])
-  ++ (if obs_list_eqb (map (fun f => obs_of_event (EStmt (SSelect (t_name t) (col_names t) (WSimple (dfilter_of t f)) None))) fs)
-                      (q_single_stmts c) then [] else [3])
-  ++ (if nat_lists_eqb (map (fun f => filter_idx (fun r => is_tt (eval_simple (dfilter_of t f) r)) (q_contents c) 0) fs)
-                       (q_single_rows c) then [] else [4])
-  ++ (if table_ok t && columns_ok t && forallb (row_representable t) (q_contents c) then [] else [5]).
+  let cs := q_callers c in
+  let n := List.length fs in
+  (if obs_perm_eqb
+        (map (fun b => obs_of_event (EStmt (batch_stmt t (map (nth_filter fs) b)))) (q_arrival c)
+         ++ map (own_stmt t fs cs) (List.filter (has_opts cs) (seq 0 n)))
+        (q_batched_stmts c) then [] else [1])
+  ++ (if results_agree (map (model_batched_rows t fs cs (q_arrival c) (q_contents c)) (seq 0 n)) (q_batched_rows c)
+      then [] else [2])
+  ++ (if obs_list_eqb (map (own_stmt t fs cs) (seq 0 n)) (q_single_stmts c) then [] else [3])
+  ++ (if results_agree (map (model_single_rows t fs cs (q_contents c)) (seq 0 n)) (q_single_rows c) then [] else [4])
+  ++ (if table_ok t && columns_ok t && forallb (row_representable t) (q_contents c) then [] else [5])
+  ++ (if forallb (fun i => Bool.eqb (has_opts cs i)
+                             (match batch_of (q_arrival c) i with None => true | Some _ => false end)) (seq 0 n)
+      then [] else [6]).
 
 Fixpoint mismatches_c10 (_ : nat) (cs : list (nat * c10_case)) : list (nat * list nat) :=
   match cs with
